@@ -40,19 +40,37 @@ impl SerdeParser {
 
         for attr in attrs {
             if attr.path().is_ident("serde") {
-                if let Ok(tokens) = syn::parse2::<syn::MetaList>(attr.meta.to_token_stream()) {
-                    let tokens_str = tokens.tokens.to_string();
-
-                    // Check for skip flag
-                    if tokens_str.contains("skip") && !tokens_str.contains("skip_serializing") {
+                // Walk the attribute's meta items instead of searching its text: `skip` and
+                // `rename` also occur inside other keys (skip_deserializing, skip_serializing_if)
+                // and inside values (alias = "skip", rename = "rename_all").
+                let _ = attr.parse_nested_meta(|meta| {
+                    if meta.path.is_ident("skip") {
                         result.skip = true;
+                    } else if meta.path.is_ident("rename") {
+                        if meta.input.peek(syn::Token![=]) {
+                            let lit: syn::LitStr = meta.value()?.parse()?;
+                            result.rename = Some(lit.value());
+                        } else {
+                            // rename(serialize = "...", deserialize = "...")
+                            meta.parse_nested_meta(|inner| {
+                                let lit: syn::LitStr = inner.value()?.parse()?;
+                                if inner.path.is_ident("serialize") {
+                                    result.rename = Some(lit.value());
+                                }
+                                Ok(())
+                            })?;
+                        }
+                    } else if meta.input.peek(syn::Token![=]) {
+                        // any other `key = value`
+                        let _: syn::Expr = meta.value()?.parse()?;
+                    } else if meta.input.peek(syn::token::Paren) {
+                        // any other `key(...)`
+                        let content;
+                        syn::parenthesized!(content in meta.input);
+                        let _: proc_macro2::TokenStream = content.parse()?;
                     }
-
-                    // Parse rename = "value"
-                    if let Some(rename) = self.parse_rename(&tokens_str) {
-                        result.rename = Some(rename);
-                    }
-                }
+                    Ok(())
+                });
             }
         }
 
@@ -80,6 +98,7 @@ impl SerdeParser {
     }
 
     /// Parse rename value from field attribute
+    #[cfg_attr(not(test), allow(dead_code))]
     fn parse_rename(&self, tokens: &str) -> Option<String> {
         // Look for "rename" but not "rename_all"
         let mut search_start = 0;
